@@ -185,7 +185,7 @@ func kindName(k am.Kind) string {
 func TestEqualOnUniverses(t *testing.T) {
 	const test = "EqualOnUniverses"
 	hx.Rule(test, "rapid type universes (0..5 identified structs: opaque, packed, recursive and mutually recursive through pointers) and 2..6 types over them, each completed with one-feature-apart mutants (bit width, float kind, length, scalable, element, field, parameter, return type, variadic, address space, packed, name); every description is instantiated as two disjoint llir object graphs; Equal must agree with the reference identity on every ordered pair, be reflexive, symmetric, transitive on all triples, and terminate; non-trivial = case contains a composite type of depth >= 2 or a named type")
-	hx.Check(t, test, hx.N(2500, 60000), func(rt *rapid.T) {
+	hx.Check(t, test, hx.N(2500, 400000), func(rt *rapid.T) {
 		u := gen.GenUniverseWith(rt, 5, true)
 		n := rapid.IntRange(2, 5).Draw(rt, "ntypes")
 		c := tcase{U: u}
@@ -231,7 +231,7 @@ func depth(t *am.Type) int {
 func TestEqualPreservedByPrintParse(t *testing.T) {
 	const test = "EqualPreservedByPrintParse"
 	hx.Rule(test, "rapid (universe, type): the type is used in a declaration (return type for void, behind a pointer for function types, parameter otherwise), the module is printed and parsed, and the parsed type must be Equal to the original in both directions; non-trivial = composite or named type")
-	hx.Check(t, test, hx.N(2500, 60000), func(rt *rapid.T) {
+	hx.Check(t, test, hx.N(2500, 400000), func(rt *rapid.T) {
 		u := gen.GenUniverseWith(rt, 4, true)
 		ty := gen.AnyType(rt, u, rapid.IntRange(0, 4).Draw(rt, "depth"))
 		c := tcase{U: u, Types: []*am.Type{ty}}
